@@ -35,6 +35,11 @@ def scalar_cases(r, tier):
                           [["gcd", 0, big(70)], ["gcd", big(70), 0], ["gcd", -5, 0], ["gcd", 0, -7]])
     cases["inv-r-cpp"] = ("cpp", [["inv", big(r.choice([8, 64, 150])), abs(big(r.choice([8, 64, 150]))) + 1] for _ in range(nr)])
     cases["inv-r-long"] = ("long", [["inv", big(30), abs(big(30)) + 1] for _ in range(nr)])
+    # the top of the built-in range: the largest values an int can hold (sqrt about 46341, cheap) and, for long, values
+    # just above 2^32 squared boundaries are too slow to trial-divide, so long gets the squares/products around 2^31
+    top = 2 ** 31 - 1
+    cases["prime-top-int"] = ("int", [["prime", top - d] for d in range(0, 70)] + [["prime", 46337 * 46337], ["prime", 46337 * 46327], ["prime", 46340 * 46340 + 1]])
+    cases["prime-top-long"] = ("long", [["prime", q] for q in (2 ** 31 - 1, 2 ** 31 + 11, 2 ** 32 - 5, 2 ** 32 + 15, 65537 * 65539, 65521 * 65521, 2 ** 40 - 87, 1000003 * 1000033)])
     cases["prime-r-long"] = ("long", [["prime", r.getrandbits(r.choice([20, 30, 40])) | 1] for _ in range(60 if tier == "quick" else 400)])
     for k in cases:  # gcd(0,0) excluded by the property's domain
         cases[k] = (cases[k][0], [q for q in cases[k][1] if not (q[0] == "gcd" and q[1] == 0 and q[2] == 0)])
